@@ -141,7 +141,8 @@ def Expanded.fromBinary (s : Int) : Out Expanded :=
         | none => .panic
         | some (month, day) => .ok ⟨year, month, day, asU8 hour⟩
 
-/-- date.rs:214-246: the hour component, entered with `offset` pointing at the expected '.' -/
+/-- date.rs:214-251: the hour component, entered with `offset` pointing at the expected '.'.
+A zero hour (`0`, `00`) is refused; a leading zero (`05`) is accepted. -/
 def Expanded.parseHour (year : Int) (month day : Nat) (offset : Nat) (data : Bytes) : Out Expanded :=
   match data[offset]? with
   | none => .err
@@ -151,15 +152,15 @@ def Expanded.parseHour (year : Int) (month day : Nat) (offset : Nat) (data : Byt
       match data[offset + 1]? with
       | none => .err
       | some n =>
-        if !isDigit n || n == 48 then .err
+        if !isDigit n then .err
         else
           let hour1 := digitVal n
           match data[offset + 2]? with
-          | none => .ok ⟨year, month, day, hour1⟩
+          | none => if hour1 == 0 then .err else .ok ⟨year, month, day, hour1⟩
           | some n2 =>
             if isDigit n2 then
               let result := hour1 * 10 + digitVal n2
-              if data.length != offset + 3 then .err
+              if data.length != offset + 3 || result == 0 then .err
               else .ok ⟨year, month, day, result⟩
             else .err
 
